@@ -175,13 +175,18 @@ fn lift(src: &str) -> Lifted {
     }
 }
 
-fn cfg_line(src: &str) -> String {
+fn cfg_line(src: &str, with_ssa: bool) -> String {
     match lift(src) {
         Lifted::NoParse => "noparse".to_string(),
         Lifted::Error => "cfg error".to_string(),
         Lifted::Panic => "cfg panic".to_string(),
         Lifted::Ok(cfg) => {
             let before = show_blocks(&blocks_of(&cfg));
+            if !with_ssa {
+                // into_ssa needs memory exponential in the if/else nesting
+                // depth; the driver skips it for deeply nested programs
+                return format!("cfg {before} # ssa skipped");
+            }
             let after = match guarded(move || cfg.into_ssa()) {
                 None => "panic".to_string(),
                 Some(Err(_)) => "error".to_string(),
@@ -307,7 +312,8 @@ fn main() {
             None => return "bad-line".to_string(),
         };
         match mode.as_str() {
-            "cfg" => cfg_line(&src),
+            "cfg" => cfg_line(&src, true),
+            "cfg-nossa" => cfg_line(&src, false),
             "walk" => walk_line(&src, n, false),
             "walk-ssa" => walk_line(&src, n, true),
             _ => "bad-mode".to_string(),
